@@ -6,7 +6,10 @@ package stream
 import (
 	"errors"
 	"math/rand"
+	"os"
+	"os/exec"
 	"testing"
+	"time"
 
 	"github.com/Trendyol/go-dcp/couchbase"
 	"github.com/Trendyol/go-dcp/models"
@@ -211,6 +214,78 @@ func TestVerifFallbackCheckpointLoad(t *testing.T) {
 				}
 			}
 		}
+	}
+}
+
+// Child scenarios (the fatal paths end the process from a worker goroutine, so they run in a re-executed test binary).
+func TestVerifFallbackChild(t *testing.T) {
+	mode := os.Getenv("VERIF_CHILD")
+	if mode == "" {
+		t.Skip("helper of the fallback deciders")
+	}
+	ids := []uint16{0, 1, 2}
+	switch mode {
+	case "load-ahead", "load-ahead-no-vector-entry":
+		cl := &vfClient{seqNos: map[uint16]uint64{0: 100, 1: 100, 2: 100}}
+		md := &vfCapMetadata{docs: map[uint16]*models.CheckpointDocument{}, exist: true}
+		s := newReplayStream(ids, &vfConsumer{}, &vfMetadata{}, cl)
+		cp := s.checkpoint.(*checkpoint)
+		cp.metadata = md
+		cp.offsetLatestSeqNoInit = offset.NewOffsetLatestSeqNoInit(s.config)
+		for _, vb := range ids {
+			md.docs[vb] = &models.CheckpointDocument{BucketUUID: "b", Checkpoint: &models.CheckpointDocumentCheckpoint{VbUUID: 5, SeqNo: 40, Snapshot: &models.CheckpointDocumentSnapshot{StartSeqNo: 30, EndSeqNo: 60}}}
+		}
+		if mode == "load-ahead" {
+			md.docs[1].Checkpoint.SeqNo = 140 // beyond the high seqno 100; snapshot start 30 is not
+		} else {
+			delete(cl.seqNos, 1) // no high seqno known for vb 1: 40 is beyond what the server confirmed
+		}
+		offs, _, _ := cp.Load()
+		o, _ := offs.Load(1)
+		t.Logf("Load returned: vb 1 resumes at %+v", o)
+	case "open-one-fails":
+		cl := &vfFailOneClient{fail: 1}
+		s := newReplayStream(ids, &vfConsumer{}, &vfMetadata{}, &cl.vfClient)
+		s.client = cl
+		s.openAllStreams(ids)
+		t.Logf("openAllStreams returned although vb 1 could not be opened")
+	}
+}
+
+type vfFailOneClient struct {
+	vfClient
+	fail uint16
+}
+
+func (c *vfFailOneClient) OpenStream(vbID uint16, ids map[uint32]string, o *models.Offset, ob couchbase.Observer) error {
+	if vbID == c.fail {
+		return errors.New("open failed")
+	}
+	time.Sleep(150 * time.Millisecond) // the other vBuckets open after the failure has been reported
+	return nil
+}
+
+// runChild re-executes this test binary for one fatal scenario; it reports whether the process died.
+func runChild(t *testing.T, mode string) (died bool, out string) {
+	cmd := exec.Command(os.Args[0], "-test.run=^TestVerifFallbackChild$", "-test.v")
+	cmd.Env = append(os.Environ(), "VERIF_CHILD="+mode)
+	b, err := cmd.CombinedOutput()
+	return err != nil, string(b)
+}
+
+// Property C15: a checkpoint beyond the vBucket's confirmed high seqno is fatal (two layouts).
+func TestVerifFallbackLoadAheadIsFatal(t *testing.T) {
+	for _, mode := range []string{"load-ahead", "load-ahead-no-vector-entry"} {
+		if died, out := runChild(t, mode); !died {
+			t.Errorf("VIOLATION C15: %s: a stored checkpoint beyond the confirmed high seqno did not stop the client: %.300s", mode, out)
+		}
+	}
+}
+
+// Property C15: one assigned vBucket that cannot be opened stops the client.
+func TestVerifFallbackOpenFailureIsFatal(t *testing.T) {
+	if died, out := runChild(t, "open-one-fails"); !died {
+		t.Errorf("VIOLATION C15: a vBucket stream that cannot be opened did not stop the client: %.300s", out)
 	}
 }
 
